@@ -56,8 +56,8 @@ def record(ck):
     b = ck.bin('mmio_rec')
     parts = ck.pick(6, 12)
     mode = ck.pick('sweep', 'sweepfull')
-    nrand = ck.pick(6, 24)
-    n = ck.pick(3000, 12000)
+    nrand = ck.pick(6, 32)
+    n = ck.pick(3000, 18000)
     files, cmds = [], []
     for i in range(parts):
         f = os.path.join(ck.work, 'mmio_sweep_%d.ndjson' % i)
